@@ -96,17 +96,27 @@ def run(prog, tier, extra=None):
                         if pb is not None:
                             pch = Chaser(pb)
                             for _, t in pb.calls():
-                                if (call_name(t) or "").rsplit("::", 1)[-1] == "contains":
-                                    args = [pch.origin(a) for a in t["args"]]
-                                    if any(has_field(a, "slip::Slip", "public_key") for a in args):
+                                last = (call_name(t) or "").rsplit("::", 1)[-1]
+                                args = [pch.origin(a) for a in t["args"]]
+                                if not any(has_field(a, "slip::Slip", "public_key") for a in args):
+                                    continue
+                                # membership tests: exact lookups, or a binary search on a list sorted beforehand
+                                if last in ("contains", "contains_key", "get", "eq"):
+                                    return True
+                                if last.startswith("binary_search"):
+                                    if sorted_before[0]:
                                         return True
+                                    notes.append("binary_search on a key list that generate_lite_block never sorts")
                 return False
             return pred
+        notes = []
+        sorted_before = [any((call_name(t) or "").rsplit("::", 1)[-1] in ("sort", "sort_unstable", "sort_by", "sort_unstable_by", "sort_by_key") for _, t in lb.calls())]
         for field in ("from", "to"):
             res.instance(R2)
             edges = gate.bool_switch_edges(chooser, cch, any_over(field))
             if not edges["sites"]:
-                res.add(Finding(R2, "C18.retention|%s|no-test" % field, "the lite-block chooser does not test whether a listed key appears in tx.%s" % field, chooser.loc(0)))
+                why = (" (%s)" % notes[0]) if notes else ""
+                res.add(Finding(R2, "C18.retention|%s|no-test" % field, "the lite-block chooser has no sound test of whether a listed key appears in tx.%s%s" % (field, why), chooser.loc(0)))
                 continue
             # with only the false edges of this test removed, the placeholder must be unreachable:
             # i.e. reaching the placeholder requires this test to have been false
